@@ -39,6 +39,7 @@ def run(ctx):
     r317(ctx)
     r319(ctx, core)
     r320(ctx)
+    r322(ctx, core)
     from . import c17 as _c17
     _c17.r176(ctx, 'R3.21')
     from . import c01 as _c01b, callsigs as _csb
@@ -565,3 +566,46 @@ def _blocks(stmts):
                 yield from _blocks(sub)
         for h in getattr(st, 'handlers', []) or []:
             yield from _blocks(h.body)
+
+
+def r322(ctx, core, rule='R3.22'):
+    """v2 pages, dictionary-index / RLE-boolean branch of read_data_page_v2 (known finding K03b): (a) the `itemsize`
+    handed to the hybrid decoder is the byte size of one output element; (b) no run header is read and thrown away on the
+    route that then calls the hybrid decoder (only the byte-exact fast path may skip it); (c) the scratch array that is
+    scattered into the non-null slots has one element per non-null value; (d) raw page bytes assigned to a typed code
+    array are viewed as that type first"""
+    f = core.func('read_data_page_v2')
+    cfg = CFG(f)
+    hyb = [c for c in walk_no_nested(f) if isinstance(c, ast.Call) and (callee(c) or '').endswith('read_rle_bit_packed_hybrid')]
+    for i, c in enumerate(sorted(hyb, key=lambda x: x.lineno)):
+        it = kwarg(c, 'itemsize', 4)
+        ok = isinstance(it, ast.Constant) and it.value in (1, 4) or (it is not None and 'itemsize' in norm(it))
+        ctx.ob(rule, 'core.read_data_page_v2:hybrid-itemsize-is-the-output-item-size:#%d' % i, ok,
+               'itemsize=%s: the decoder advances its output by itemsize bytes per value; a bit width (1..32) is not a byte size '
+               '(width 3 into int8 codes writes every third byte)' % (norm(it) if it is not None else '?'), core.loc(c))
+    bare = [st for st in iter_child_stmts(f.body) if isinstance(st, ast.Expr) and isinstance(st.value, ast.Call)
+            and (callee(st.value) or '').endswith('read_unsigned_var_int')]
+    for st in bare:
+        stream = norm(st.value.args[0]) if st.value.args else ''
+        later = [c for c in hyb if c.args and norm(c.args[0]) == stream and cfg.exists_path(cfg.node_of(st), _node_of_call(cfg, c))]
+        ctx.ob(rule, 'core.read_data_page_v2:no-run-header-discarded-before-the-general-decoder', not later,
+               '`%s` consumes the first run header of the index stream; %d hybrid decode(s) of the same stream follow on some path '
+               'and start in the middle of the first run' % (norm(st), len(later)), core.loc(st))
+    scr = [st for st in iter_child_stmts(f.body) if isinstance(st, ast.Assign) and norm(st.targets[0]) == 'temp' and 'np.empty(' in norm(st.value)]
+    for st in scr:
+        used_nonnull = any(isinstance(x, ast.Assign) and '~nulls' in norm(x.targets[0]) and 'temp' in norm(x.value) for x in iter_child_stmts(f.body))
+        okn = 'n_values' in norm(st.value) and 'data_header2.num_values' not in norm(st.value)
+        ctx.ob(rule, 'core.read_data_page_v2:scratch-for-non-null-values-has-non-null-count', okn or not used_nonnull,
+               '`%s` is scattered into the non-null slots ([~nulls]) but has one element per *row*: with nulls the shapes differ' % norm(st)[:80], core.loc(st))
+    for st in iter_child_stmts(f.body):
+        if isinstance(st, ast.Assign) and isinstance(st.targets[0], ast.Subscript) and 'outbytes' in norm(st.value) \
+                and ".view('uint8')" not in norm(st.targets[0]):
+            ctx.ob(rule, 'core.read_data_page_v2:fast-path-bytes-viewed-as-codes:%s' % norm(st.targets[0])[-28:], '.view(' in norm(st.value),
+                   '`%s`: outbytes is the raw byte string of the page; for int16 / int32 codes each byte would become one code' % norm(st)[:100], core.loc(st))
+
+
+def _node_of_call(cfg, c):
+    for nd in cfg.nodes:
+        if nd.stmt is not None and any(y is c for y in ast.walk(nd.stmt)) and not isinstance(nd.stmt, (ast.If, ast.For, ast.While, ast.Try, ast.With)):
+            return nd.id
+    return None
